@@ -116,6 +116,18 @@ func f1(c tk.Content, b tk.Batch) bool {
 	return false
 }
 
+const kindRootOnly = "root_differs_from_reference"
+
+// sigOf: a failing transition belongs to known finding F1 only when its (content, batch)
+// satisfies the predicate AND what fails is the root alone (reads at the new root still agree
+// with the model); anything else, also inside the F1 input class, is reported as a violation.
+func sigOf(isF1 bool, msg string) string {
+	if isF1 && kindOf(msg) == kindRootOnly {
+		return "F1"
+	}
+	return ""
+}
+
 // kindOf names the oracle that failed (the text before the first ':' of an observation).
 func kindOf(msg string) string {
 	for i := 0; i < len(msg); i++ {
@@ -124,8 +136,11 @@ func kindOf(msg string) string {
 			break
 		}
 	}
-	if len(msg) > 4 && msg[:4] == "root" {
-		return "root_differs_from_reference"
+	if strings.HasPrefix(msg, "root and reads") {
+		return "root_and_reads_wrong"
+	}
+	if strings.HasPrefix(msg, "root") {
+		return kindRootOnly
 	}
 	return strings.ReplaceAll(strings.TrimSpace(msg), " ", "_")
 }
@@ -313,10 +328,7 @@ func runBFS(ctx *xplor.Ctx, cfg bfsCfg, tag string) {
 						}
 						path := append(append([]tk.Batch{}, s.path...), b)
 						if r.msg != "" {
-							sig := ""
-							if r.isF1 {
-								sig = "F1"
-							}
+							sig := sigOf(r.isF1, r.msg)
 							mu.Lock()
 							report := sig == "" || nF1 < 3
 							if sig != "" {
@@ -381,10 +393,7 @@ func replayBFS(ctx *xplor.Ctx, r replay) {
 	for i, b := range r.Path {
 		res := step(st, s, b)
 		if res.msg != "" {
-			sig := ""
-			if res.isF1 {
-				sig = "F1"
-			}
+			sig := sigOf(res.isF1, res.msg)
 			ctx.Violation(sig, fmt.Sprintf("keys %v: from %v (after %d batches) batch %v: %s", tk.Names, s.c, i, b, res.msg), r)
 			return
 		}
@@ -467,10 +476,7 @@ func runLiveAll(ctx *xplor.Ctx, cfg liveCfg) {
 				ctx.Trace(1)
 				i, msg, isF1 := runLive(st, n, j.steps)
 				if i >= 0 {
-					sig := ""
-					if isF1 {
-						sig = "F1"
-					}
+					sig := sigOf(isF1, msg)
 					mu.Lock()
 					report := sig == "" || nF1 < 2
 					if sig != "" {
@@ -531,11 +537,7 @@ func run(ctx *xplor.Ctx) {
 			tk.Use(r.Sel...)
 			st := db.NewDB(db.VerifImpl, "c10-replay")
 			if i, msg, isF1 := runLive(st, len(r.Sel), r.Steps); i >= 0 {
-				sig := ""
-				if isF1 {
-					sig = "F1"
-				}
-				ctx.Violation(sig, fmt.Sprintf("keys %v: live step %d: %s", tk.Names, i, msg), r)
+				ctx.Violation(sigOf(isF1, msg), fmt.Sprintf("keys %v: live step %d: %s", tk.Names, i, msg), r)
 			}
 		}
 		return
